@@ -573,6 +573,8 @@ class Type4ATag(Type4Tag):
 class Type4BTag(Type4Tag):
     def __init__(self, clf, target):
         super(Type4BTag, self).__init__(clf, target)
+        if len(target.sensb_res) < 12:
+            raise nfc.clf.ProtocolError("truncated SENSB response")
         self._nfcid = bytearray(target.sensb_res[1:5])
 
         log.debug("send ATTRIB command to activate the Type 4B Tag")
